@@ -25,13 +25,18 @@ from ..simfs import FS
 from ..world import Arena, World, rmtree_real
 
 CAL = "/user/calendars/calendar/"
-KINDS = {"C05": ("W", "W"), "C02": ("Rget", "W"), "C03": ("Wcond", "Wcond"), "C07": ("Rsync", "W"), "C08": ("Rtags", "W"), "C17": ("Rmulti", "W")}
+KINDS = {"C05": ("W", "W"), "C02": ("Rget", "W"), "C03": ("Wcond", "Wcond"), "C07": ("Rsync", "W"), "C08": ("Rtags", "W"), "C17": ("Rmulti", "W"),
+         # two property updates of one collection (different properties: neither may undo the other)
+         "C15": ("Wprop", "Wprop")}
+PROP_TAGS = [dav.P_DISPLAYNAME, dav.P_CAL_COLOR, dav.P_CAL_ORDER, dav.P_CAL_DESC]
 
 
 def make_config(prop, seed, tier):
     r = random.Random(H("conccfg", seed))
     return {"seed": seed, "frontend": "aiohttp", "prefix": r.choice(["/", "/dav/"]), "autocreate": "defaults", "strict": True, "listing": True,
-            "pair": KINDS[prop], "mode": "await" if KINDS[prop][0].startswith("W") else r.choice(["await", "threads", "threads"]),
+            # C17: the other request is a write, or a second multiget asking for other properties
+            "pair": ("Rmulti", "Rmulti2") if (prop == "C17" and r.random() < 0.35) else KINDS[prop],
+            "mode": "await" if KINDS[prop][0].startswith("W") else r.choice(["await", "threads", "threads"]),
             "variants": 10 if tier == "quick" else 60}
 
 
@@ -64,6 +69,11 @@ class ConcRun:
         names = [m["name"] for m in pre]
         if kind in ("W", "Wcond"):
             k = r.random()
+            if kind == "Wcond" and k < 0.3:
+                # "only if it exists" against a conditional delete of the same member
+                if j == 0:
+                    return {"kind": "put", "name": names[0], "cond": {"If-Match": "*"}, "body": gen.ics(r, "uid-0", rich=0, summary="star").decode("latin-1")}
+                return {"kind": "delete", "name": names[0], "cond": r.choice([{"If-Match": "CURRENT"}, {}])}
             if kind == "Wcond":
                 tgt = r.choice(["new.ics", names[0]])
                 if tgt == "new.ics":
@@ -78,6 +88,21 @@ class ConcRun:
             if k < 0.88:
                 return {"kind": "delete", "name": r.choice(names), "cond": r.choice([{}, {"If-Match": "CURRENT"}])}
             return {"kind": "proppatch", "value": "name %d" % r.randint(0, 99)}
+        if kind == "Wprop":
+            # A and B never touch the same property: both effects must survive in either order
+            mine = PROP_TAGS[:2] if j == 0 else PROP_TAGS[2:]
+            if r.random() < 0.5:
+                mine = mine[::-1]
+            instrs = []
+            for t in mine[:r.randint(1, 2)]:
+                if r.random() < 0.8:
+                    val = gen.color(r) if t == dav.P_CAL_COLOR else str(r.randint(0, 99)) if t == dav.P_CAL_ORDER else "text %d" % r.randint(0, 999)
+                    instrs.append(["set", t, val])
+                else:
+                    instrs.append(["remove", t, None])
+            return {"kind": "proppatchN", "instrs": instrs}
+        if kind == "Rmulti2":
+            return {"kind": "multiget_partial", "names": names, "mode": r.choice(["comp", "expand"])}
         if kind == "Rget":
             return {"kind": r.choice(["get", "get", "propfind1"]), "name": r.choice(names)}
         if kind == "Rsync":
@@ -100,6 +125,10 @@ class ConcRun:
             return "DELETE", w.target(CAL + req["name"]), cond, b""
         if k == "proppatch":
             return "PROPPATCH", w.target(CAL), [dav.XML_CT], dav.proppatch_body([("set", dav.P_DISPLAYNAME, req["value"])])
+        if k == "proppatchN":
+            return "PROPPATCH", w.target(CAL), [dav.XML_CT], dav.proppatch_body([tuple(i) for i in req["instrs"]])
+        if k == "multiget_partial":
+            return "REPORT", w.target(CAL), [dav.XML_CT, ("Depth", "1")], dav.partial_data_body("multiget", [w.target(CAL + n) for n in req["names"]], req["mode"])
         if k == "get":
             return "GET", w.target(CAL + req["name"]), [], b""
         if k == "propfind1":
@@ -214,7 +243,7 @@ class ConcRun:
                 "digest": hashlib.sha256(repr((sorted(self.stats.items()), sorted(self.signatures))).encode()).hexdigest(),
                 "world": {"virtual_s": 0.0, "nreq": self.stats.get("requests", 0)}, "fs": {"bypass": len(FS.bypass), "bypass_sample": FS.bypass[:3]}}
 
-    PER_RESOURCE = ("propfind0", "propfind1", "multiget")
+    PER_RESOURCE = ("propfind0", "propfind1", "multiget", "multiget_partial")
 
     def per_resource_match(self, plan, res, fin, refs):
         """A read that spans several resources (or several properties) is not
